@@ -64,7 +64,7 @@ theorem call_preserves_config (st : State) (sel : Sel) (enter : List ScopeArg) (
   · exact Frame.refl st
   · split
     · rename_i h; exact callCfg_frame _ _ _ _ _ _ _ _ h
-    · exact Frame.refl st
+    · exact ⟨rfl, rfl, rfl, rfl, rfl, rfl, rfl, rfl, rfl⟩
 
 theorem eval_preserves_config (fuel : Nat) (st st' : State) (σ : Scope) (v v' : Val)
     (h : evalVal fuel st σ v = .ok (st', v')) : Frame st st' :=
